@@ -164,3 +164,428 @@ Proof.
   intros ip4 H. unfold ip_equal. rewrite ztake12_mapped, zdrop12_mapped, !bytes_eqb_refl.
   rewrite zlen_app, H. reflexivity.
 Qed.
+
+(* ------------------------------------------------------------------ *)
+(* itod / dtoi                                                          *)
+
+(* the decimal digits of v, most significant first (ASCII) *)
+Fixpoint digs (fuel : nat) (v : Z) : bytes :=
+  match fuel with
+  | O => []
+  | S f => if v >? 0 then digs f (v / 10) ++ [v mod 10 + 48] else []
+  end.
+
+Definition is_digit (c : Z) : Prop := 48 <= c <= 57.
+
+(* value of a digit string, the usual Horner scheme *)
+Definition dec_value (l : bytes) : Z := fold_left (fun a c => a * 10 + (c - 48)) l 0.
+
+Lemma pow10_pos : forall k : nat, 0 < 10 ^ Z.of_nat k.
+Proof. intros. apply Z.pow_pos_nonneg; lia. Qed.
+
+Lemma pow10_S : forall k : nat, 10 ^ Z.of_nat (S k) = 10 * 10 ^ Z.of_nat k.
+Proof. intros. rewrite Nat2Z.inj_succ, Z.pow_succ_r by lia. reflexivity. Qed.
+
+Lemma digs_length : forall fuel (k : nat) v, 0 <= v < 10 ^ Z.of_nat k -> (List.length (digs fuel v) <= k)%nat.
+Proof.
+  induction fuel as [|f IH]; intros k v Hv; cbn [digs]; [cbn; lia|].
+  destruct (Z.gtb_spec v 0) as [Hp|Hn]; [|cbn; lia].
+  destruct k as [|k]; [cbn in Hv; lia|].
+  rewrite app_length. cbn [List.length].
+  rewrite pow10_S in Hv.
+  assert (H10 : 0 <= v / 10 < 10 ^ Z.of_nat k).
+  { pose proof (pow10_pos k). split; [apply Z.div_pos; lia|]. apply Z.div_lt_upper_bound; lia. }
+  specialize (IH k (v / 10) H10). lia.
+Qed.
+
+Lemma digs_all_digits : forall fuel v, 0 <= v -> Forall is_digit (digs fuel v).
+Proof.
+  induction fuel as [|f IH]; intros v Hv; cbn [digs]; [constructor|].
+  destruct (Z.gtb_spec v 0); [|constructor].
+  apply Forall_app; split.
+  - apply IH. apply Z.div_pos; lia.
+  - constructor; [|constructor]. unfold is_digit. pose proof (Z.mod_pos_bound v 10). lia.
+Qed.
+
+Lemma dec_value_snoc : forall l c, dec_value (l ++ [c]) = dec_value l * 10 + (c - 48).
+Proof. intros. unfold dec_value. rewrite fold_left_app. reflexivity. Qed.
+
+Lemma digs_value : forall fuel v, 0 <= v < 10 ^ Z.of_nat fuel -> dec_value (digs fuel v) = v.
+Proof.
+  induction fuel as [|f IH]; intros v Hv; cbn [digs].
+  - cbn in Hv. cbn. lia.
+  - destruct (Z.gtb_spec v 0) as [Hp|Hn]; [|cbn; lia].
+    rewrite dec_value_snoc. rewrite pow10_S in Hv. pose proof (pow10_pos f).
+    rewrite IH.
+    + pose proof (Z.div_mod v 10). lia.
+    + split; [apply Z.div_pos; lia|]. apply Z.div_lt_upper_bound; lia.
+Qed.
+
+(* no leading zero: the first digit of a positive number is not '0' *)
+Lemma digs_head : forall fuel v, 0 < v < 10 ^ Z.of_nat fuel ->
+  exists c rest, digs fuel v = c :: rest /\ 49 <= c <= 57.
+Proof.
+  induction fuel as [|f IH]; intros v Hv.
+  - cbn in Hv. lia.
+  - cbn [digs]. destruct (Z.gtb_spec v 0) as [Hp|Hn]; [|lia].
+    rewrite pow10_S in Hv. pose proof (pow10_pos f).
+    destruct (Z.eq_dec (v / 10) 0) as [E|NE].
+    + rewrite E. destruct f; cbn [digs].
+      * exists (v mod 10 + 48), []. split; [reflexivity|].
+        pose proof (Z.div_mod v 10). pose proof (Z.mod_pos_bound v 10). lia.
+      * cbn. exists (v mod 10 + 48), []. split; [reflexivity|].
+        pose proof (Z.div_mod v 10). pose proof (Z.mod_pos_bound v 10). lia.
+    + assert (H10 : 0 < v / 10 < 10 ^ Z.of_nat f).
+      { assert (0 <= v / 10) by (apply Z.div_pos; lia).
+        split; [lia|]. apply Z.div_lt_upper_bound; lia. }
+      destruct (IH _ H10) as (c & rest & E & Hc). rewrite E.
+      exists c, (rest ++ [v mod 10 + 48]). split; [reflexivity|assumption].
+Qed.
+
+(* more fuel than digits changes nothing *)
+Lemma digs_fuel : forall f1 f2 v, 0 <= v < 10 ^ Z.of_nat f1 -> (f1 <= f2)%nat -> digs f2 v = digs f1 v.
+Proof.
+  induction f1 as [|f1 IH]; intros f2 v Hv Hle.
+  - cbn in Hv. assert (v = 0) by lia. subst. destruct f2; reflexivity.
+  - destruct f2 as [|f2]; [lia|]. cbn [digs].
+    destruct (Z.gtb_spec v 0) as [Hp|Hn]; [|reflexivity].
+    rewrite pow10_S in Hv. pose proof (pow10_pos f1).
+    rewrite (IH f2 (v / 10)); [reflexivity| |lia].
+    split; [apply Z.div_pos; lia|]. apply Z.div_lt_upper_bound; lia.
+Qed.
+
+(* loop invariant of itod: the digits are written right-aligned into pre, suf is untouched *)
+Lemma itod_loop_spec : forall fuel pre suf v,
+  0 <= v < 10 ^ Z.of_nat fuel ->
+  (List.length (digs fuel v) <= List.length pre)%nat ->
+  exists pre0 junk,
+    pre = pre0 ++ junk /\ List.length junk = List.length (digs fuel v) /\
+    itod_loop fuel (pre ++ suf) (zlen pre - 1) v = Ret (pre0 ++ digs fuel v ++ suf, zlen pre0 - 1).
+Proof.
+  induction fuel as [|f IH]; intros pre suf v Hv Hlen.
+  - cbn in Hv. assert (v = 0) by lia. subst v. cbn.
+    exists pre, []. rewrite app_nil_r. splits; reflexivity.
+  - cbn [digs itod_loop] in *.
+    destruct (Z.gtb_spec v 0) as [Hp|Hn].
+    + rewrite app_length in Hlen. cbn [List.length] in Hlen.
+      destruct (exists_last (l := pre)) as (pre' & x & ->).
+      { intros ->. cbn in Hlen. lia. }
+      rewrite app_length in Hlen. cbn [List.length] in Hlen.
+      rewrite zlen_app, zlen_cons, zlen_nil.
+      replace (zlen pre' + (1 + 0) - 1) with (zlen pre') by lia.
+      assert (Hb : (zlen pre' <? 0) || (zlen ((pre' ++ [x]) ++ suf) <=? zlen pre') = false).
+      { pose proof (zlen_nonneg pre'). pose proof (zlen_nonneg suf).
+        rewrite !zlen_app, zlen_cons, zlen_nil. lia. }
+      rewrite Hb. rewrite <- app_assoc. cbn [app]. rewrite zset_app.
+      rewrite pow10_S in Hv. pose proof (pow10_pos f).
+      assert (H10 : 0 <= v / 10 < 10 ^ Z.of_nat f).
+      { split; [apply Z.div_pos; lia|]. apply Z.div_lt_upper_bound; lia. }
+      assert (Hw : wrapu8 (v mod 10 + 48) = v mod 10 + 48).
+      { unfold wrapu8. pose proof (Z.mod_pos_bound v 10). apply Z.mod_small. lia. }
+      rewrite Hw.
+      destruct (IH pre' ((v mod 10 + 48) :: suf) (v / 10) H10) as (pre0 & junk & E1 & E2 & E3); [lia|].
+      exists pre0, (junk ++ [x]). splits.
+      * rewrite E1, <- app_assoc. reflexivity.
+      * rewrite !app_length. cbn [List.length]. lia.
+      * replace (zlen pre' - 1 + 1 - 1) with (zlen pre' - 1) by lia.
+        rewrite E3. rewrite <- !app_assoc. reflexivity.
+    + assert (v = 0) by lia. subst v. exists pre, []. rewrite app_nil_r. splits; reflexivity.
+Qed.
+
+Lemma pow10_32_big : 2 ^ 64 < 10 ^ Z.of_nat 32.
+Proof. vm_compute. reflexivity. Qed.
+
+(* itod on any pooled buffer of 32 bytes returns exactly the decimal digits *)
+Lemma itod_buf_spec : forall buf v, List.length buf = 32%nat -> 0 < v < 2 ^ 64 ->
+  itod_buf buf v = Ret (digs 33 v).
+Proof.
+  intros buf v Hl Hv. unfold itod_buf.
+  destruct (Z.eqb_spec v 0); [lia|].
+  pose proof pow10_32_big as Hb.
+  assert (Hv33 : 0 <= v < 10 ^ Z.of_nat 33).
+  { split; [lia|]. rewrite pow10_S. pose proof (pow10_pos 32). lia. }
+  assert (Hlen : (List.length (digs 33 v) <= List.length buf)%nat).
+  { rewrite Hl. apply digs_length. lia. }
+  rewrite Hl.
+  destruct (itod_loop_spec 33 buf [] v Hv33 Hlen) as (pre0 & junk & E1 & E2 & E3).
+  rewrite app_nil_r in E3. rewrite E3. cbn [obind fst snd].
+  replace (zlen pre0 - 1 + 1) with (zlen pre0) by lia.
+  rewrite app_nil_r. rewrite zdrop_app_len. reflexivity.
+Qed.
+
+Lemma itod_spec : forall v, 0 < v < 2 ^ 64 -> itod v = Ret (digs 33 v).
+Proof. intros. unfold itod. apply itod_buf_spec; [reflexivity|assumption]. Qed.
+
+(* the contents of the pooled buffer never reach the result *)
+Lemma itod_buf_irrelevant : forall b1 b2 v, List.length b1 = 32%nat -> List.length b2 = 32%nat ->
+  0 <= v < 2 ^ 64 -> itod_buf b1 v = itod_buf b2 v.
+Proof.
+  intros b1 b2 v H1 H2 Hv. destruct (Z.eq_dec v 0) as [->|N]; [reflexivity|].
+  rewrite !itod_buf_spec by (assumption || lia). reflexivity.
+Qed.
+
+Lemma itod_never_panics : forall v, 0 <= v < 2 ^ 64 -> exists s, itod v = Ret s.
+Proof.
+  intros v Hv. destruct (Z.eq_dec v 0) as [->|N]; [eexists; reflexivity|].
+  eexists. apply itod_spec. lia.
+Qed.
+
+(* itod v is THE canonical decimal numeral of v *)
+Lemma itod_decimal : forall v, 0 < v < 2 ^ 64 ->
+  exists c rest, itod v = Ret (c :: rest) /\ 49 <= c <= 57 /\ Forall is_digit (c :: rest) /\
+                 dec_value (c :: rest) = v.
+Proof.
+  intros v Hv. rewrite itod_spec by assumption.
+  pose proof pow10_32_big.
+  assert (Hv33 : 0 < v < 10 ^ Z.of_nat 33).
+  { split; [lia|]. rewrite pow10_S. pose proof (pow10_pos 32). lia. }
+  destruct (digs_head 33 v Hv33) as (c & rest & E & Hc).
+  exists c, rest. rewrite <- E.
+  split; [reflexivity|]. split; [exact Hc|]. split.
+  - apply digs_all_digits; lia.
+  - apply digs_value; lia.
+Qed.
+
+(* dtoi reads the digits back, one loop iteration per digit *)
+Lemma dtoi_loop_digs : forall fuel v rest i0,
+  0 <= v < big -> v < 10 ^ Z.of_nat fuel ->
+  dtoi_loop (digs fuel v ++ rest) 0 i0 = dtoi_loop rest v (i0 + zlen (digs fuel v)).
+Proof.
+  induction fuel as [|f IH]; intros v rest i0 Hv Hf.
+  - cbn in Hf. assert (v = 0) by lia. subst. cbn. rewrite Z.add_0_r. reflexivity.
+  - cbn [digs]. destruct (Z.gtb_spec v 0) as [Hp|Hn].
+    + rewrite pow10_S in Hf. pose proof (pow10_pos f).
+      assert (H10 : 0 <= v / 10 < big).
+      { split; [apply Z.div_pos; lia|]. apply Z.div_lt_upper_bound; lia. }
+      assert (H10f : v / 10 < 10 ^ Z.of_nat f) by (apply Z.div_lt_upper_bound; lia).
+      rewrite <- app_assoc. cbn [app].
+      rewrite (IH (v / 10) ((v mod 10 + 48) :: rest) i0 H10 H10f).
+      cbn [dtoi_loop].
+      pose proof (Z.mod_pos_bound v 10). pose proof (Z.div_mod v 10).
+      replace ((48 <=? v mod 10 + 48) && (v mod 10 + 48 <=? 57)) with true by lia.
+      replace (v / 10 * 10 + (v mod 10 + 48 - 48)) with v by lia.
+      replace (v >=? big) with false by lia.
+      rewrite zlen_app, zlen_cons, zlen_nil. f_equal. lia.
+    + assert (v = 0) by lia. subst. cbn. rewrite Z.add_0_r. reflexivity.
+Qed.
+
+Lemma big_lt_pow10 : big < 10 ^ Z.of_nat 33.
+Proof. vm_compute. reflexivity. Qed.
+
+Theorem itod_dtoi : forall v, 0 < v < big ->
+  exists s, itod v = Ret s /\ dtoi s 0 = (v, zlen s, true).
+Proof.
+  intros v Hv. exists (digs 33 v). split.
+  - apply itod_spec. unfold big in Hv. split; [lia|]. apply Z.lt_trans with big; [unfold big; lia|]. vm_compute; reflexivity.
+  - unfold dtoi. rewrite zdrop_0.
+    pose proof big_lt_pow10.
+    rewrite <- (app_nil_r (digs 33 v)) at 1.
+    rewrite dtoi_loop_digs by lia. cbn [dtoi_loop]. rewrite Z.add_0_l.
+    destruct (digs_head 33 v) as (c & rest & E & _); [lia|].
+    destruct (Z.eqb_spec (zlen (digs 33 v)) 0) as [E0|]; [|reflexivity].
+    rewrite E, zlen_cons in E0. pose proof (zlen_nonneg rest). lia.
+Qed.
+
+(* at and above `big` the early return of dtoi fires: the number is read as 0 *)
+Lemma dtoi_loop_overflow : forall l n i, big <= n -> Forall is_digit l ->
+  l <> [] -> fst (fst (dtoi_loop l n i)) = 0 /\ snd (dtoi_loop l n i) = false.
+Proof.
+  intros l n i Hn Hd Hne. destruct l as [|c l]; [contradiction|].
+  inversion Hd as [|? ? Hc _]; subst. unfold is_digit in Hc. cbn [dtoi_loop].
+  replace ((48 <=? c) && (c <=? 57)) with true by lia.
+  replace (n * 10 + (c - 48) >=? big) with true by (unfold big in *; lia).
+  split; reflexivity.
+Qed.
+
+(* the code before the fix returned buf[i:], one byte too many *)
+Definition itod_buf_before_fix (buf : bytes) (v : Z) : outcome bytes :=
+  if v =? 0 then Ret [48]
+  else obind (itod_loop (S (List.length buf)) buf (zlen buf - 1) v)
+             (fun r => Ret (zdrop (snd r) (fst r))).
+
+(* witness of the defect repaired by the fix: commit in known_findings.d/C17.json:
+   zone index 9999 is rendered as "\0009999" and read back as 0 *)
+Lemma itod_before_fix_refuted :
+  exists v, 0 < v < big /\
+    itod_buf_before_fix pool32 v = Ret [0; 57; 57; 57; 57] /\
+    dtoi [0; 57; 57; 57; 57] 0 = (0, 0, false).
+Proof. exists 9999. splits; try (unfold big; lia); vm_compute; reflexivity. Qed.
+
+(* ------------------------------------------------------------------ *)
+(* interface table, zones                                               *)
+
+Lemma by_name_in : forall tbl n i, by_name tbl n = Some i -> In (n, i) tbl.
+Proof.
+  induction tbl as [|[n0 i0] t IH]; intros n i H; cbn in H; [discriminate|].
+  destruct (bytes_eqb n0 n) eqn:E.
+  - apply bytes_eqb_eq in E. inversion H; subst. left; reflexivity.
+  - right. apply IH; assumption.
+Qed.
+
+Lemma by_index_in : forall tbl n i, by_index tbl i = Some n -> In (n, i) tbl.
+Proof.
+  induction tbl as [|[n0 i0] t IH]; intros n i H; cbn in H; [discriminate|].
+  destruct (Z.eqb_spec i0 i) as [E|N].
+  - inversion H; subst. left; reflexivity.
+  - right. apply IH; assumption.
+Qed.
+
+Lemma by_name_by_index : forall tbl n i, NoDup (map snd tbl) ->
+  by_name tbl n = Some i -> by_index tbl i = Some n.
+Proof.
+  induction tbl as [|[n0 i0] t IH]; intros n i Hnd H; cbn in H; [discriminate|].
+  cbn [map snd] in Hnd. inversion Hnd as [|? ? Hnotin Hnd']; subst.
+  cbn [by_index]. destruct (bytes_eqb n0 n) eqn:E.
+  - apply bytes_eqb_eq in E. inversion H; subst. rewrite Z.eqb_refl. reflexivity.
+  - destruct (Z.eqb_spec i0 i) as [Ei|Ni].
+    + exfalso. subst i0. apply Hnotin. apply by_name_in in H.
+      change i with (snd (n, i)). apply in_map. assumption.
+    + apply IH; assumption.
+Qed.
+
+Lemma by_index_by_name : forall tbl n i, NoDup (map fst tbl) ->
+  by_index tbl i = Some n -> by_name tbl n = Some i.
+Proof.
+  induction tbl as [|[n0 i0] t IH]; intros n i Hnd H; cbn in H; [discriminate|].
+  cbn [map fst] in Hnd. inversion Hnd as [|? ? Hnotin Hnd']; subst.
+  cbn [by_name]. destruct (Z.eqb_spec i0 i) as [Ei|Ni].
+  - inversion H; subst. rewrite bytes_eqb_refl. reflexivity.
+  - destruct (bytes_eqb n0 n) eqn:E.
+    + exfalso. apply bytes_eqb_eq in E. subst n0. apply Hnotin. apply by_index_in in H.
+      change n with (fst (n, i)). apply in_map. assumption.
+    + apply IH; assumption.
+Qed.
+
+Lemma valid_tbl_entry : forall tbl n i, valid_tbl tbl -> In (n, i) tbl -> n <> [] /\ 0 < i < 4294967296.
+Proof.
+  intros tbl n i (_ & _ & Hf) Hin. rewrite Forall_forall in Hf. apply (Hf (n, i) Hin).
+Qed.
+
+Lemma wrapu32_small : forall z, 0 <= z < 4294967296 -> wrapu32 z = z.
+Proof. intros. unfold wrapu32. apply Z.mod_small. lia. Qed.
+
+(* "" <-> 0 *)
+Lemma zone_roundtrip_empty : forall tbl, zone_to_string tbl (wrapu32 (zone_to_int tbl [])) = Ret [].
+Proof. reflexivity. Qed.
+
+(* a name of the table goes to its index and comes back *)
+Theorem zone_roundtrip_name : forall tbl z idx, valid_tbl tbl -> by_name tbl z = Some idx ->
+  zone_to_int tbl z = idx /\ zone_to_string tbl (wrapu32 (zone_to_int tbl z)) = Ret z.
+Proof.
+  intros tbl z idx Hv Hn.
+  destruct (valid_tbl_entry tbl z idx Hv (by_name_in _ _ _ Hn)) as [Hne Hr].
+  assert (Hi : zone_to_int tbl z = idx).
+  { unfold zone_to_int, interface_by_name. apply is_empty_false in Hne. rewrite Hne, Hn. reflexivity. }
+  split; [assumption|]. rewrite Hi, wrapu32_small by lia.
+  unfold zone_to_string, interface_by_index.
+  replace (idx =? 0) with false by lia. replace (idx <=? 0) with false by lia.
+  destruct Hv as (_ & Hnd & _). rewrite (by_name_by_index _ _ _ Hnd Hn). reflexivity.
+Qed.
+
+(* a decimal index below `big` that names no interface (neither as a name nor as an index) *)
+Theorem zone_roundtrip_index : forall tbl v z, 0 < v < big -> itod v = Ret z ->
+  by_name tbl z = None -> by_index tbl v = None ->
+  zone_to_int tbl z = v /\ zone_to_string tbl (wrapu32 (zone_to_int tbl z)) = Ret z.
+Proof.
+  intros tbl v z Hv Hz Hn Hi.
+  destruct (itod_dtoi v Hv) as (s & Hs & Hd). rewrite Hz in Hs. inversion Hs; subst s.
+  assert (Hne : z <> []).
+  { intros ->. vm_compute in Hd. discriminate. }
+  assert (Hzi : zone_to_int tbl z = v).
+  { unfold zone_to_int, interface_by_name. apply is_empty_false in Hne. rewrite Hne, Hn, Hd. reflexivity. }
+  split; [assumption|]. unfold big in Hv. rewrite Hzi, wrapu32_small by lia.
+  unfold zone_to_string, interface_by_index.
+  replace (v =? 0) with false by lia. replace (v <=? 0) with false by lia.
+  rewrite Hi. assumption.
+Qed.
+
+(* the zones the property quantifies over *)
+Inductive zone_ok (tbl : list iface) : bytes -> Prop :=
+| ZNone : zone_ok tbl []
+| ZName : forall z idx, by_name tbl z = Some idx -> zone_ok tbl z
+| ZIndex : forall v z, 0 < v < big -> itod v = Ret z -> by_name tbl z = None -> by_index tbl v = None ->
+           zone_ok tbl z.
+
+Lemma zone_ok_roundtrip : forall tbl z, valid_tbl tbl -> zone_ok tbl z ->
+  zone_to_string tbl (wrapu32 (zone_to_int tbl z)) = Ret z.
+Proof.
+  intros tbl z Hv [| z' idx Hn | v z' Hr Hz Hn Hi].
+  - reflexivity.
+  - apply (zone_roundtrip_name tbl z' idx Hv Hn).
+  - apply (zone_roundtrip_index tbl v z' Hr Hz Hn Hi).
+Qed.
+
+(* the other direction: index -> string -> index *)
+Theorem zone_id_roundtrip_name : forall tbl idx name, valid_tbl tbl -> by_index tbl idx = Some name ->
+  zone_to_string tbl idx = Ret name /\ zone_to_int tbl name = idx.
+Proof.
+  intros tbl idx name Hv Hi.
+  destruct (valid_tbl_entry tbl name idx Hv (by_index_in _ _ _ Hi)) as [Hne Hr].
+  destruct Hv as (Hndn & _ & _).
+  split.
+  - unfold zone_to_string, interface_by_index.
+    replace (idx =? 0) with false by lia. replace (idx <=? 0) with false by lia. rewrite Hi. reflexivity.
+  - unfold zone_to_int, interface_by_name. apply is_empty_false in Hne. rewrite Hne.
+    rewrite (by_index_by_name _ _ _ Hndn Hi). reflexivity.
+Qed.
+
+Theorem zone_id_roundtrip_free : forall tbl v, 0 < v < big -> by_index tbl v = None ->
+  (forall z, itod v = Ret z -> by_name tbl z = None) ->
+  exists z, zone_to_string tbl v = Ret z /\ zone_to_int tbl z = v.
+Proof.
+  intros tbl v Hv Hi Hn.
+  destruct (itod_dtoi v Hv) as (s & Hs & Hd). exists s.
+  destruct (zone_roundtrip_index tbl v s Hv Hs (Hn s Hs) Hi) as [H1 _].
+  split; [|assumption].
+  unfold zone_to_string, interface_by_index.
+  replace (v =? 0) with false by lia. replace (v <=? 0) with false by lia. rewrite Hi. assumption.
+Qed.
+
+(* the documented limit (copied from package net): an index >= big without an
+   interface is printed correctly by itod but read back as 0 by dtoi *)
+Theorem zone_index_ge_big_dropped : forall tbl v z, big <= v < 2 ^ 64 -> itod v = Ret z ->
+  by_name tbl z = None -> zone_to_int tbl z = 0.
+Proof.
+  intros tbl v z Hv Hz Hn.
+  rewrite itod_spec in Hz by (unfold big in Hv; lia). inversion Hz; subst z; clear Hz.
+  pose proof pow10_32_big.
+  assert (Hv33 : 0 < v < 10 ^ Z.of_nat 33).
+  { unfold big in Hv. split; [lia|]. rewrite pow10_S. pose proof (pow10_pos 32). lia. }
+  destruct (digs_head 33 v Hv33) as (c & rest & E & Hc).
+  unfold zone_to_int, interface_by_name. rewrite Hn, E. cbn [is_empty]. rewrite <- E.
+  (* split the numeral at the first prefix whose value reaches big *)
+  unfold dtoi. rewrite zdrop_0.
+  assert (G : forall fuel w rest' i0, 0 <= w -> w < 10 ^ Z.of_nat fuel -> big <= w ->
+              fst (fst (dtoi_loop (digs fuel w ++ rest') 0 i0)) = 0 /\ snd (dtoi_loop (digs fuel w ++ rest') 0 i0) = false).
+  { induction fuel as [|f IH]; intros w rest' i0 Hw0 Hwf Hwb.
+    - cbn in Hwf. unfold big in Hwb. lia.
+    - cbn [digs]. destruct (Z.gtb_spec w 0) as [Hp|Hn0]; [|unfold big in Hwb; lia].
+      rewrite pow10_S in Hwf. pose proof (pow10_pos f).
+      assert (H10f : w / 10 < 10 ^ Z.of_nat f) by (apply Z.div_lt_upper_bound; lia).
+      assert (H100 : 0 <= w / 10) by (apply Z.div_pos; lia).
+      rewrite <- app_assoc. cbn [app].
+      destruct (Z_lt_ge_dec (w / 10) big) as [Hlt|Hge].
+      + rewrite (dtoi_loop_digs f (w / 10) ((w mod 10 + 48) :: rest') i0) by lia.
+        cbn [dtoi_loop].
+        pose proof (Z.mod_pos_bound w 10). pose proof (Z.div_mod w 10).
+        replace ((48 <=? w mod 10 + 48) && (w mod 10 + 48 <=? 57)) with true by lia.
+        replace (w / 10 * 10 + (w mod 10 + 48 - 48)) with w by lia.
+        replace (w >=? big) with true by lia. split; reflexivity.
+      + apply IH; lia. }
+  rewrite <- (app_nil_r (digs 33 v)).
+  destruct (G 33%nat v [] 0) as [G1 G2]; try lia.
+  destruct (dtoi_loop (digs 33 v ++ []) 0 0) as [[n i] ok] eqn:EL.
+  cbn [fst snd] in G1, G2. subst n ok. reflexivity.
+Qed.
+
+Definition zone_index_roundtrip_full : Prop :=
+  forall tbl v z, 0 < v < 4294967296 -> itod v = Ret z -> by_name tbl z = None -> by_index tbl v = None ->
+    zone_to_string tbl (wrapu32 (zone_to_int tbl z)) = Ret z.
+
+Lemma zone_index_roundtrip_full_refuted : ~ zone_index_roundtrip_full.
+Proof.
+  intros H. specialize (H [] 16777215 [49;54;55;55;55;50;49;53]).
+  assert (C : zone_to_string [] (wrapu32 (zone_to_int [] [49;54;55;55;55;50;49;53])) = Ret [49;54;55;55;55;50;49;53]).
+  { apply H; try reflexivity. lia. }
+  vm_compute in C. discriminate.
+Qed.
